@@ -612,10 +612,14 @@ func c18Deadline(r *fw.R, d c18Desc) {
 		} else {
 			set(writeSide, time.Now().Add(15*time.Millisecond))
 		}
-		// no call of this direction is in flight: the deadline passes while idle
-		time.Sleep(60 * time.Millisecond)
+		// no call of this direction is in flight: the deadline passes while idle. Wait for the timer
+		// callback itself (seen at the hook) rather than for an amount of time.
+		for t0 := time.Now(); idleSeen(writeSide) == 0 && activeSeen(writeSide) == 0 && time.Since(t0) < 5*time.Second; {
+			time.Sleep(2 * time.Millisecond)
+		}
 		if idleSeen(writeSide) == 0 || activeSeen(writeSide) != 0 {
-			if inconclusive("timer callback not observed in time") {
+			if idleSeen(writeSide) == 0 && activeSeen(writeSide) == 0 {
+				r.Violate("C18/deadline-timer-never-fired", fmt.Sprintf("%s: 5 s after the deadline neither timer branch had run", what), "")
 				return
 			}
 			r.Violate("C18/idle-deadline-wrong-branch", fmt.Sprintf("%s: no call was in flight when the deadline passed, observed idle=%d active=%d timer callbacks", what, idleSeen(writeSide), activeSeen(writeSide)), "")
@@ -646,7 +650,9 @@ func c18Deadline(r *fw.R, d c18Desc) {
 		}
 	case "write-idle-expiry-then-only-read-reset":
 		nc.SetWriteDeadline(time.Now().Add(10 * time.Millisecond))
-		time.Sleep(50 * time.Millisecond)
+		for t0 := time.Now(); obs.writeIdle.Load() == 0 && time.Since(t0) < 5*time.Second; {
+			time.Sleep(2 * time.Millisecond)
+		}
 		nc.SetReadDeadline(time.Now().Add(30 * time.Second)) // must not revive the write side
 		if _, err := nc.Write([]byte("x")); !isDeadlineErr(err) {
 			r.Violate("C18/write-deadline-cleared-by-read-deadline", fmt.Sprintf("%s: Write returned %v after only the READ deadline was reset", what, err), "")
@@ -659,7 +665,9 @@ func c18Deadline(r *fw.R, d c18Desc) {
 		}
 	case "both-idle-expiry-setdeadline":
 		nc.SetDeadline(time.Now().Add(10 * time.Millisecond))
-		time.Sleep(50 * time.Millisecond)
+		for t0 := time.Now(); (obs.writeIdle.Load() == 0 || obs.readIdle.Load() == 0) && time.Since(t0) < 5*time.Second; {
+			time.Sleep(2 * time.Millisecond)
+		}
 		if err := call(false); !isDeadlineErr(err) {
 			r.Violate("C18/idle-deadline-call-not-failing", fmt.Sprintf("%s: Read returned %v", what, err), "")
 			return
